@@ -396,6 +396,16 @@ class Contact(ComplexModel):             # every element member belongs to a cho
     phone = Unicode(xml_choice_group='how')
 
 
+class Shape(ComplexModel):               # declared type of a polymorphic return value ...
+    __namespace__ = 'urn:shapes'
+    sides = Integer
+
+
+class Marker(Shape):                     # ... whose subclass lives in a namespace of its own and adds no element
+    __namespace__ = 'urn:markers'
+    note = Unicode
+
+
 class Card(ComplexModel):                # a choice group between ordinary members
     __namespace__ = TNS
     _type_info = [('owner', Unicode), ('email', Unicode(xml_choice_group='how')), ('phone', Unicode(xml_choice_group='how')),
@@ -405,7 +415,8 @@ class Card(ComplexModel):                # a choice group between ordinary membe
 IN_TYPES = {'primitive': Integer, 'foreign': ZooRecord, 'local': LocalRecord, 'nested-foreign': FarmRecord,
             'derived-across-namespaces': Keeper, 'choice-only': Contact, 'choice-between-members': Card}
 OUT_TYPES = {'primitive': Unicode, 'foreign': ZooRecord, 'local': LocalRecord, 'nested-foreign': FarmRecord,
-             'derived-across-namespaces': Keeper, 'choice-only': Contact, 'choice-between-members': Card}
+             'derived-across-namespaces': Keeper, 'choice-only': Contact, 'choice-between-members': Card,
+             'polymorphic-foreign-subclass': Shape}
 _COMPILED = {}
 
 
@@ -414,7 +425,7 @@ _COMPILED = {}
          functions=['spyne.interface._base.Interface.add_method', 'spyne.interface._base.Interface.add_class',
                     'spyne.interface.xml_schema._base.XmlSchema.build_schema_nodes',
                     'spyne.interface.xml_schema._base.XmlSchema.build_validation_schema'],
-         bounds={'universes': '3 body styles x 7 argument kinds x 7 return kinds over five namespaces (a type derived across two namespaces that refer to each other, a type whose members all sit in a choice group, a choice group declared between ordinary members) (concrete programs; '
+         bounds={'universes': '3 body styles x 7 argument kinds x 8 return kinds (one of them a polymorphic return value whose subclass lives in a namespace of its own) over five namespaces (a type derived across two namespaces that refer to each other, a type whose members all sit in a choice group, a choice group declared between ordinary members) (concrete programs; '
                               'this harness is an enumeration of universes, there is no symbolic input)'})
 def schema_compiles(sx, p):
     """for every listed application the generated schema set compiles (every referenced namespace is imported) and both the
@@ -426,7 +437,9 @@ def schema_compiles(sx, p):
     out_value = {'primitive': u'txt', 'foreign': ZooRecord(name=u'z', legs=4), 'local': LocalRecord(n=3),
                  'nested-foreign': FarmRecord(rec=ZooRecord(name=u'z', legs=2), tag=u't'),
                  'derived-across-namespaces': Keeper(pet=PetRec(name=u'rex'), badge=7, shift=u'night'),
-                 'choice-only': Contact(phone=u'555'), 'choice-between-members': Card(owner=u'o', phone=u'555', rank=2)}[o]
+                 'choice-only': Contact(phone=u'555'), 'choice-between-members': Card(owner=u'o', phone=u'555', rank=2),
+                 # (no member of the subclass is set: its namespace occurs in the type marker only)
+                 'polymorphic-foreign-subclass': Marker(sides=3)}[o]
     in_value = {'primitive': 7, 'foreign': ZooRecord(name=u'q', legs=1), 'local': LocalRecord(n=1),
                 'nested-foreign': FarmRecord(rec=ZooRecord(name=u'q', legs=0), tag=u''),
                 'derived-across-namespaces': Keeper(pet=PetRec(name=u'tom'), badge=1, shift=u'day'),
@@ -436,8 +449,13 @@ def schema_compiles(sx, p):
         @rpc(IN_TYPES[i], _returns=OUT_TYPES[o], **kw)
         def op(ctx, a):
             return out_value
+
+        @rpc(_returns=Marker)              # (makes the subclass of the polymorphic universe part of the interface)
+        def other(ctx):
+            return None
     try:
-        app = Application([S], TNS, in_protocol=Soap11(), out_protocol=Soap11(), name='App_%s_%s_%s' % p)
+        app = Application([S], TNS, in_protocol=Soap11(), out_protocol=Soap11(polymorphic=(o == 'polymorphic-foreign-subclass')),
+                          name='App_%s_%s_%s' % p)
     except Exception as e:
         sx.outside('application rejected at construction: %s' % type(e).__name__)
     xs = XmlSchema(app.interface)
